@@ -341,6 +341,13 @@ def run_unit(unit):
     # ---- finite object: a dummy plane in the object gap (the "first surface" of the description moves, the lens does not)
     if math.isfinite(sp['obj']):
         for frac in (0.2, 0.5, 0.9):
+            # the plane must lie strictly in front of the first surface along every traced ray (a concave-towards-the-object
+            # first surface reaches back towards the object at its rim)
+            z1 = r0['z'][1]
+            okz = np.isfinite(z1)
+            if not np.any(okz) or not (-(1 - frac) * sp['obj'] < float(np.min(z1[okz])) - 1e-6):
+                part.count('inadmissible-dummy-positions')
+                continue
             sp_t, mp, s = t_objdummy(sp, frac)
             det = dict(det0, transformation=['object-gap-dummy', [frac]])
             apply_and_check(sp_t, mp, s, 'object-gap-dummy', det, zoff=(1 - frac) * sp['obj'])
